@@ -365,8 +365,17 @@ def step(sysm, c, m, op):
     before = canon(c)
     mop = model_op(c, op)
     _ = c.stats, c.s_nodes, list(c.topological_order()) if False else None     # derived views asked before the edit: a cache on the object would now be stale
+    pickle.dumps(c)      # serialised before the edit as well: whatever serialisation leaves on the object must not outlive the edit
     c2 = sysm.apply(c, op)
     v = invariants(c2)
+    if op[0] not in ('copy', 'pickle'):
+        # every state reached by an edit survives a pickle round trip (the object was already serialised once before the edit)
+        try:
+            rt = pickle.loads(pickle.dumps(c2))
+            if canon(rt, strip=True) != canon(c2, strip=True):
+                v.append(('pickle-after-edit', f'pickle round trip after {op[0]} (the circuit had been pickled before the edit) gives {canon(rt, strip=True)} instead of {canon(c2, strip=True)}'))
+        except Exception as ex:
+            v.append(('pickle-after-edit', f'pickle round trip after {op[0]} raised {ex!r}'))
     if op[0] in ('copy', 'pickle'):
         if canon(c2, strip=True) != canon(c, strip=True): v.append((op[0] + '-differs', f'{op[0]} result differs from the original: {canon(c2)} vs {before}'))
         try:
